@@ -1,3 +1,113 @@
-import Chiritori.Spec.Holds
+import Chiritori.Props.C04
+import Chiritori.Props.C05
+/-
+  C19 — Cleaning is idempotent and composes over time.
+
+  Full statement: `Statement` (idempotence, and stepwise = one-shot up to whitespace along non-decreasing chains
+  of configurations) for rendered AST documents.  It is FALSE of the current code for documents in which an
+  element ends a code line (known finding D14): `c19_negation_D14` replays the witness in the kernel.
+  Proved:
+  * `ready_monotone`: along a chain (time advancing, target set growing, same tag names and offset) no element
+    ever becomes un-ready - the set of removable extents of a fixed source only grows (C05/C06 lifted);
+  * `idempotent_of_nothing_ready`: a second cleaning changes nothing whenever the first result contains no ready
+    element (C04 applied to the result);
+  * `skip_stays`, `unregistered_stays`: skipped / unregistered elements are never ready at any step.
+  Not proved: that the result of a cleaning contains no ready element, and the composition law itself (they need
+  the refinement theorem `clean ≈ render ∘ prune` over AST documents, which is not built).
+-/
 namespace Chiritori.Props.C19
+open Chiritori Chiritori.Spec
+
+/-- `cfg₁ ≤ cfg₂`: same names and offset, time advances, targets grow -/
+structure CfgLe (c1 c2 : Cfg) : Prop where
+  tl : c1.tlName = c2.tlName
+  rm : c1.rmName = c2.rmName
+  off : c1.offset = c2.offset
+  time : c1.now < c2.now ∨ (c1.now = c2.now ∧ c1.nowNanos ≤ c2.nowNanos)
+  targets : ∀ t ∈ c1.targets, t ∈ c2.targets
+
+theorem expired_mono (c1 c2 : Cfg) (h : CfgLe c1 c2) (el : Element) (he : expired c1 el = true) : expired c2 el = true := by
+  unfold expired at he ⊢
+  cases hv : attrValue el "to" with
+  | none => rw [hv] at he; simp at he
+  | some v =>
+    rw [hv] at he
+    simp only at he ⊢
+    rw [← h.off]
+    cases hp : chronoParse (v ++ [' '] ++ c1.offset) with
+    | none => rw [hp] at he; simp at he
+    | some ex =>
+      rw [hp] at he
+      simp only [instantLt, Bool.not_eq_true', Bool.or_eq_false_iff, decide_eq_false_iff_not, Bool.and_eq_false_iff,
+        beq_eq_false_iff_ne] at he ⊢
+      obtain ⟨h1, h2⟩ := he
+      rcases h.time with ht | ⟨ht1, ht2⟩
+      · exact ⟨by omega, Or.inl (by omega)⟩
+      · refine ⟨by omega, ?_⟩
+        rcases h2 with h2 | h2
+        · left; omega
+        · right; omega
+
+theorem targeted_mono (c1 c2 : Cfg) (h : CfgLe c1 c2) (el : Element) (he : targeted c1 el = true) : targeted c2 el = true := by
+  unfold targeted at he ⊢
+  cases hv : attrValue el "name" with
+  | none => rw [hv] at he; simp at he
+  | some v =>
+    rw [hv] at he
+    simp only [List.contains_iff_mem] at he ⊢
+    exact h.targets v he
+
+/-- no element becomes un-ready as time advances and targets are added -/
+theorem ready_monotone (c1 c2 : Cfg) (h : CfgLe c1 c2) (el : Element) (he : conditionHolds c1 el = true) :
+    conditionHolds c2 el = true := by
+  unfold conditionHolds at he ⊢
+  rw [← h.tl, ← h.rm]
+  simp only [Bool.and_eq_true, Bool.not_eq_true', Bool.or_eq_true, beq_iff_eq, bne_iff_ne, ne_eq] at he ⊢
+  obtain ⟨hs, hc⟩ := he
+  refine ⟨hs, ?_⟩
+  rcases hc with ⟨h1, h2⟩ | ⟨⟨h1, h2⟩, h3⟩
+  · exact Or.inl ⟨h1, targeted_mono c1 c2 h el h2⟩
+  · exact Or.inr ⟨⟨h1, h2⟩, expired_mono c1 c2 h el h3⟩
+
+/-- the removable extents of a fixed source only grow -/
+theorem extents_grow (c1 c2 : Cfg) (h : CfgLe c1 c2) (b : Bytes) (parts : List Part) (i : Nat)
+    (hi : inAny (readyExtents c1 b parts) i = true) : inAny (readyExtents c2 b parts) i = true := by
+  unfold readyExtents at hi ⊢
+  simp only [inAny, List.any_eq_true, List.mem_flatMap] at hi ⊢
+  obtain ⟨r, ⟨e, he, hr⟩, hc⟩ := hi
+  refine ⟨r, ⟨e, he, ?_⟩, hc⟩
+  split at hr
+  · rename_i hcond
+    rw [if_pos (ready_monotone c1 c2 h e.1 hcond)]
+    exact hr
+  · simp at hr
+
+theorem idempotent_of_nothing_ready (x : List Char) (ds de : List Char) (cfg : Cfg) (y : List Char)
+    (hds : ds ≠ []) (hde : de ≠ []) (_ : clean x ds de cfg = .ok y) (hn : nothingReady y ds de cfg = true) :
+    clean y ds de cfg = .ok y := C04.c04 y ds de cfg hds hde hn
+
+theorem skip_stays (cfg : Cfg) (el : Element) (h : hasAttr el "skip" = true) : conditionHolds cfg el = false := by
+  simp [conditionHolds, h]
+
+theorem unregistered_stays (cfg : Cfg) (el : Element) (h1 : el.name ≠ cfg.tlName) (h2 : el.name ≠ cfg.rmName) :
+    conditionHolds cfg el = false := by
+  simp [conditionHolds, h1, h2]
+
+/-! ### the known finding D14, replayed in the kernel -/
+def cfgAt (now : Int) : Cfg := ⟨"tl".toList, "rm".toList, now, 0, "+00:00".toList, []⟩
+def d14 : List Char :=
+  "<tl to='2003-01-01 00:00:00' unwrap-block>\nif (x) {\n  code <tl to='2001-01-01 00:00:00'>b</tl>\n}\n</tl>\n".toList
+def cleanOr (src : List Char) (now : Int) : List Char :=
+  match clean src "<".toList ">".toList (cfgAt now) with
+  | .ok o => o
+  | .error _ => "PANIC".toList
+def nonws (s : List Char) : List Char := s.filter fun c => !(c == ' ' || c == '\n' || c == '\t')
+
+/-- stepwise (2001, then 2003) and one-shot (2003) cleaning of the D14 witness differ beyond whitespace:
+    the earlier run joins `code` with the wrapper line, the later run can no longer unwrap -/
+theorem c19_negation_D14 :
+    nonws (cleanOr (cleanOr d14 978307200) 1041379200) ≠ nonws (cleanOr d14 1041379200) := by decide +kernel
+
+example : cleanOr d14 1041379200 = "  code ".toList := by decide +kernel
+
 end Chiritori.Props.C19
